@@ -278,11 +278,15 @@ func (ex *Exec) invoke(st *State, ct *callTarget, k func(*State, []Val)) {
 			return // `assume false`: the path is cut here (reported as an assumption)
 		}
 		k0 := k
+		args0 := ct.args
+		ex.lastWitness = nil
 		k = func(st *State, vs []Val) {
 			if st.frame.fi == ex.top && st.frame.closure == nil {
 				ex.anchorResults = vs
+				ex.anchorArgs = args0 // the argument values as passed (entry values)
 				ex.runAnchors(st, "after", name, ord)
 				ex.anchorResults = nil
+				ex.anchorArgs = nil
 			}
 			k0(st, vs)
 		}
@@ -332,6 +336,12 @@ func (ex *Exec) runAnchors(st *State, when, name string, ord int) (cut bool) {
 		}
 		for i, v := range ex.anchorArgs {
 			env.bind[fmt.Sprintf("callarg%d", i)] = v
+		}
+		if when == "after" {
+			// ghost locals of the callee's contract (its witnesses) are visible as callghost_<name>
+			for k, v := range ex.lastWitness {
+				env.bind["callghost_"+k] = v
+			}
 		}
 		for i, v := range ex.anchorResults {
 			env.bind[fmt.Sprintf("callresult%d", i)] = v
@@ -847,10 +857,16 @@ func (ex *Exec) callContract(st *State, c *Contract, fi *FuncInfo, ct *callTarge
 	func() {
 		defer ex.specRecover("requires of " + name)
 		for _, r := range c.Requires {
-			ex.oblige(st, "pre@"+name, nil, env.goal(r.E), "precondition of "+name+": "+r.Src, ct.call.Pos())
+			if !ex.layerActive(r.Props) {
+				continue
+			}
+			ex.oblige(st, "pre@"+name, r.Props, env.goal(r.E), "precondition of "+name+": "+r.Src, ct.call.Pos())
 		}
 	}()
 	for _, r := range c.Requires {
+		if !ex.layerActive(r.Props) {
+			continue
+		}
 		st.assume(env.boolTerm(r.E))
 	}
 	targets := env.evalModifies(c)
@@ -933,6 +949,10 @@ func (ex *Exec) callContract(st *State, c *Contract, fi *FuncInfo, ct *callTarge
 						srt, gty = iv.S, iv.Go
 					}
 					penv.bind[id.Name] = Val{T: ex.w.freshConst("wit_"+id.Name, srt), S: srt, Go: gty}
+					if ex.lastWitness == nil {
+						ex.lastWitness = map[string]Val{}
+					}
+					ex.lastWitness[id.Name] = penv.bind[id.Name]
 				}
 			}
 			for _, g := range c.Ghosts {
@@ -940,6 +960,9 @@ func (ex *Exec) callContract(st *State, c *Contract, fi *FuncInfo, ct *callTarge
 				penv.ghostAssume(g)
 			}
 			for _, e := range c.Ensures {
+				if !ex.layerActive(e.Props) {
+					continue
+				}
 				if e.Trusted {
 					ex.w.assumed["trusted postcondition (NOT proved) of "+name+": "+e.Src] = true
 				}
@@ -1390,6 +1413,22 @@ func (ex *Exec) contractWriteKeys(ws *writeSet, c *Contract, fi *FuncInfo, calle
 	for key, s := range ex.allocKeys(c, fi, ct) {
 		ws.keys[key] = s
 	}
+}
+
+// layerActive: a clause labelled with property tags (`requires C01: ...`) belongs to a layer of
+// contracts; at a call site it is checked and used only if the calling function takes part in one of
+// those layers (its own contract mentions the tag). A caller outside the layer neither has to
+// establish the labelled preconditions nor may it use the labelled postconditions.
+func (ex *Exec) layerActive(props []string) bool {
+	if len(props) == 0 || ex.top == nil || ex.top.Spec == nil {
+		return true
+	}
+	for _, p := range props {
+		if contractMentions(ex.top.Spec, p) {
+			return true
+		}
+	}
+	return false
 }
 
 // ---------- top-level verification of one function ----------
